@@ -287,10 +287,19 @@ class DAGRunConcurrentManager(DAGRunManagerLike):
             Args:
                 u -  Node
             """
-            # A OneOf child belongs only to the subgraph that OneOf builds to run it (as its destination).
+            # A OneOf child belongs only to the subgraph that is built to run it (as its destination).
             # Neither the other subgraphs nor the other OneOfs may launch it or see its errors.
             # The graph is shared between runs, hence it cannot be used to keep the fact that a child has been started.
-            return not self.dag.graph.nodes[u].get(NodeField.is_oneof_child) or (is_oneof and u == dest)
+            if not self.dag.graph.nodes[u].get(NodeField.is_oneof_child) or u == dest:
+                return True
+
+            # A child that is also an ordinary dependency of another node is an ordinary node for that node:
+            # otherwise the node would wait for a result that comes only if OneOf happens to try the child.
+            # (Being a case of a switch is not an ordinary dependency: the case is run only if it is selected.)
+            return any(
+                not self._is_head_of_oneof(v) and self.dag.graph.edges[u, v].get(EdgeField.case_branch) is None
+                for v in self.dag.graph.successors(u)
+            )
 
         return get_connected_subgraph(
             dag=nx.subgraph_view(self.dag.graph, filter_edge=_filter, filter_node=_filter_node),
